@@ -153,7 +153,7 @@ BUILDER_FAMILY = {
 def coreobj_pipeline(prop, tier, purpose=None):
     """MC_CoreObj (every call history of one Paseto<V,P> builder object) -> executed on the real object,
     every minted token read back under a matrix of presentations -> CoreObjTrace validation."""
-    res = verif.run_tlc("MC_CoreObj.tla", "MC_CoreObj.cfg", workers=8, timeout=1800)
+    res = verif.run_tlc("MC_CoreObj.tla", "MC_CoreObj.cfg" if tier == "quick" else "MC_CoreObj_thorough.cfg", workers=8, timeout=1800)
     verif.require_model_ok(res, "MC_CoreObj")
     behs = verif.printed_records(res["out"], "BEH")
     if not behs:
